@@ -18,7 +18,7 @@ git -C /repo apply "$DST/patch.diff" || exit 2
 DETECT=""
 EXPECT=""
 for Q in $P "$@"; do
-  OUT=$(./bin/jetverif -prop $Q -tier quick -repo /repo -out /tmp/vout 2>&1); RC=$?
+  OUT=$(./bin/jetverif -prop $Q -tier quick -repo /repo -out /tmp/vout -findings /verif/known_findings.json 2>&1); RC=$?
   KEYS=$(echo "$OUT" | grep -o 'key=[^ ]*' | sed 's/key=//' | tr '\n' ' ')
   echo "  check $Q rc=$RC keys: $KEYS"
   if [ "$Q" = "$P" ] && [ $RC -eq 1 ] && [ -z "$EXPECT" ]; then EXPECT=$(echo "$KEYS" | awk '{print $1}' | cut -d/ -f1); fi
